@@ -86,7 +86,7 @@ def standard_traces(rep, tier):
                     op.f = f
                 else:
                     grid = mkgrid(gk, a, b)
-                    op = Integration(f=f, grid=grid, dim=D, reference_solution=np.atleast_1d(f.getAnalyticSolutionIntegral(a, b)))
+                    op = Integration(f=f, grid=grid, dim=D, reference_solution=DP.reference(func, f, a, b))
                     combi = DimAdaptiveCombi(a, b, operation=op)
                 if reuse and (D, gk, box is None) not in previous:
                     continue
@@ -146,6 +146,9 @@ def run(tier, seed):
     rep = Report(PROP, tier, seed, 'model_checking')
     rng = random.Random(seed)
     model_check(rep, tier)
+    # dimension-adaptive loop: own model (DimAdaptive.tla) and trace specification (DimAdaptiveTrace.tla)
+    from harness.drivers import dimadaptive_pipeline
+    dimadaptive_pipeline.run_all(rep, tier, seed)
     traces = standard_traces(rep, tier)
     nstops = 3 if tier == 'quick' else 6
     for c in configs(tier):
